@@ -143,6 +143,9 @@ func ingressSets() [][]kv.Ingress {
 		{{NS: "a", Default: "s1", Paths: []string{"s2"}}, {NS: "b", Default: "x"}},
 		{{NS: "b", Default: "x"}, {NS: "a", Default: "s1", Paths: []string{"s2"}}},
 		{{NS: "b", Paths: []string{"s1", "s1"}}, {NS: "a", Paths: []string{"y"}}, {NS: "a", Default: "x"}},
+		// path backends without a service name (resource backends) in two namespaces
+		{{NS: "a", Paths: []string{"", "s1"}}, {NS: "b", Paths: []string{"x", ""}}},
+		{{NS: "b", Paths: []string{""}}, {NS: "a", Paths: []string{""}}, {NS: "a", Default: "s2", Paths: []string{"s1", "y", "x"}}},
 	}
 }
 
@@ -154,6 +157,8 @@ func leafTerms() []kv.Term {
 	for _, ids := range [][][2]string{
 		{}, {{"a", "x"}}, {{"a", ""}}, {{"", "x"}}, {{"a", "x"}, {"b", "y"}}, {{"b", "y"}, {"a", "x"}},
 		{{"a", ""}, {"", "y"}}, {{"", "y"}, {"a", ""}}, {{"a", "x"}, {"a", "x"}}, {{"c", "a"}, {"b", ""}, {"a", "y"}},
+		// one string as a namespace-only and as a name-only entry
+		{{"a", ""}, {"", "a"}}, {{"", "a"}, {"a", ""}},
 	} {
 		ts = append(ts, kv.Term{Op: "nsname", IDs: ids})
 	}
@@ -300,6 +305,10 @@ func filterdiff(w *bufio.Writer, seed uint64, tier string, stats map[string]int)
 	}
 	emitEq := func(kind string, a, b kv.Term) {
 		fa, fb := a.Build(), b.Build()
+		if pa, pb, ok := kv.BuildPrefixPair(a, b); ok {
+			fa, fb = pa, pb
+			stats["eq-shared-array"]++
+		}
 		eq := filter.FiltersEqual(fa, fb)
 		if cf, ok := fa.(filter.ComparableFilter); ok {
 			if cf.Equals(fb) != eq {
@@ -340,9 +349,11 @@ func filterdiff(w *bufio.Writer, seed uint64, tier string, stats map[string]int)
 		if r.Chance(1, 2) {
 			b = kv.Pick(r, everything)
 		} else {
-			// a near-miss: same shape, one child swapped
+			// a near-miss: same shape, one child swapped — or one child more
 			b = a
-			if len(a.Kids) > 0 {
+			if len(a.Kids) > 0 && (a.Op == "and" || a.Op == "or") && r.Chance(1, 3) {
+				b.Kids = append(append([]kv.Term(nil), a.Kids...), kv.Pick(r, all1))
+			} else if len(a.Kids) > 0 {
 				b.Kids = append([]kv.Term(nil), a.Kids...)
 				b.Kids[r.Intn(len(b.Kids))] = kv.Pick(r, all1)
 			}
